@@ -10,6 +10,21 @@ from sim import ser
 SPECIAL_IDX_CACHE = {}
 
 
+def tab_to_space(text):
+    """A caller-supplied cleaning callable (clean_steps may hold callables)."""
+    return text.replace("\t", " ")
+
+
+CALLABLES = {"@tab_to_space": tab_to_space}
+
+
+def clean_list(names):
+    """clean_steps as the caller passes them: names, and callables for '@...'."""
+    if names is None:
+        return None
+    return [CALLABLES.get(n, n) for n in names]
+
+
 def op_key(op):
     k = op["op"]
     if k == "H1":
@@ -54,8 +69,17 @@ def special_indices():
 
 
 def h2_tokenizer(op):
-    from eyecite.tokenizers import EXTRACTORS, HyperscanTokenizer, Tokenizer
+    from eyecite.tokenizers import (
+        EXTRACTORS,
+        AhocorasickTokenizer,
+        HyperscanTokenizer,
+        Tokenizer,
+    )
 
+    if op["tok"] == "ac":
+        # another instance of the default tokenizer class (shares EXTRACTORS)
+        t = AhocorasickTokenizer()
+        return t, t.extractors
     idx = sorted(set(list(op.get("ext", ())) + special_indices()))
     exts = [EXTRACTORS[i] for i in idx if 0 <= i < len(EXTRACTORS)]
     if op["tok"] == "hs":
@@ -68,7 +92,7 @@ def eval_judged(op):
     Used for baselines and in hash contexts (no tracing, no threads)."""
     try:
         if op["op"] == "H1":
-            clean = list(op["clean"]) if op.get("clean") is not None else None
+            clean = clean_list(op.get("clean"))
             res = h1_call(op, clean)
         else:
             from eyecite import get_citations
